@@ -326,7 +326,9 @@ func C15(c *vlib.Ctx) {
 			}
 			return s
 		}
-		for k := 0; k < perCfg; k++ {
+		phase, rounds := "start", perCfg
+	probes:
+		for k := 0; k < rounds; k++ {
 			scoped := r.Chance(0.3)
 			var scopedRoute *pubRoute
 			target := prefix + "/messages/publish"
@@ -632,6 +634,38 @@ func C15(c *vlib.Ctx) {
 				for _, it := range resp.Items {
 					_ = a.Store.Ack(it.LeaseID)
 				}
+			}
+		}
+		// a publish policy arrived at by a reload: one switch of the file flips and the
+		// process reloads; whichever configuration is then in force (the new one if the
+		// reload was applied, the old one if it was refused) decides every publish
+		if phase == "start" && ci%3 == 0 {
+			type flip struct {
+				text string
+				set  func(p *pubPolicy, v bool)
+				get  func(p pubPolicy) bool
+			}
+			flips := []flip{
+				{"require_request_id", func(p *pubPolicy, v bool) { p.RequireReqID = v }, func(p pubPolicy) bool { return p.RequireReqID }},
+				{"require_actor", func(p *pubPolicy, v bool) { p.RequireActor = v }, func(p pubPolicy) bool { return p.RequireActor }},
+				{"direct", func(p *pubPolicy, v bool) { p.Direct = v }, func(p pubPolicy) bool { return p.Direct }},
+				{"allow_pull_routes", func(p *pubPolicy, v bool) { p.AllowPull = v }, func(p pubPolicy) bool { return p.AllowPull }},
+			}
+			f := flips[(ci/3)%len(flips)]
+			cur := f.get(cfg.Pol)
+			next := strings.Replace(cfg.Text, fmt.Sprintf(" %s %s", f.text, onoff(cur)), fmt.Sprintf(" %s %s", f.text, onoff(!cur)), 1)
+			if next != cfg.Text {
+				_ = a.WriteConfig(next)
+				applied := a.Reload()
+				c.Count("policy_reloads", 1)
+				c.Distinct("nontrivial", fmt.Sprintf("policy_reload:%s:%v->%v:applied=%v", f.text, cur, !cur, applied))
+				if applied {
+					f.set(&cfg.Pol, !cur)
+					cfg.Text = next
+					c.Count("policy_reloads_applied", 1)
+				}
+				phase, rounds = "after_policy_reload", 12
+				goto probes
 			}
 		}
 		a.Close()
